@@ -26,6 +26,14 @@ class Msg:
                 chunks = [payload[a:b] for a, b in zip(pts, pts[1:])] + ['']
                 self.lines = [gen.sentence('AIVDM', n, i + 1, seq, chan, c, fill if i == n - 2 else 0)
                               for i, c in enumerate(chunks)]
+            elif n > 2 and rng.random() < 0.06:
+                # ... or an empty fragment in the middle
+                cuts2 = sorted(rng.sample(range(1, len(payload)), n - 2))
+                pts = [0] + cuts2 + [len(payload)]
+                chunks = [payload[a:b] for a, b in zip(pts, pts[1:])]
+                chunks.insert(rng.randint(1, n - 2), '')
+                self.lines = [gen.sentence('AIVDM', n, i + 1, seq, chan, c, fill if i == n - 1 else 0)
+                              for i, c in enumerate(chunks)]
         self.valid = [True] * n
         if corrupt:
             i = rng.randrange(n)
@@ -96,7 +104,10 @@ class Prop:
                   [(2, '3', 'A'), (2, '4', 'A'), (2, '5', 'B')], [(1, '5', 'A'), (2, '1', 'B')],
                   [(2, '1', ''), (2, '1', '1')], [(2, '9', 'A'), (1, '', 'B'), (1, '0', 'A')],
                   # sequence id 0 and "no sequence id" are different slots
-                  [(2, '0', 'A'), (2, '', 'A')], [(3, '0', 'B'), (2, '', 'B')], [(2, '0', 'A'), (2, '', 'A'), (2, '0', 'B')]]
+                  [(2, '0', 'A'), (2, '', 'A')], [(3, '0', 'B'), (2, '', 'B')], [(2, '0', 'A'), (2, '', 'A'), (2, '0', 'B')],
+                  # a complete one-sentence message whose sequence id field reads 0 is a single-sentence message: it is
+                  # delivered at once and does not touch the fragments in flight in slot (0, channel) or ('', channel)
+                  [(2, '0', 'A'), (1, '0', 'A')], [(3, '0', 'B'), (1, '0', 'B'), (1, '', 'B')], [(2, '', 'A'), (1, '0', 'A')]]
         if tier == 'thorough':
             shapes += [[(3, '1', 'A'), (3, '2', 'A')], [(3, '1', 'A'), (3, '1', 'B'), (2, '2', 'A')], [(4, '1', 'A'), (2, '2', 'B')]]
         for shape in shapes:
@@ -142,7 +153,7 @@ class Prop:
                     chain += [(m, i) for i in order]
                 seqs.append(chain)
             for _ in range(rng.randint(0, 4)):
-                seqs.append([(Msg(rng, 1, '', rng.choice('AB')), 0)])
+                seqs.append([(Msg(rng, 1, rng.choice(['', '', '0']), rng.choice('AB')), 0)])
             out.append(('random', gen.random_interleaving(rng, seqs)))
         return out
 
